@@ -127,6 +127,21 @@ needs.update({
  "C07-r2": ("MultiTapering's adaptive iteration starts from the previous weights", "MultiTapering(method='adapt'), at least two computations with unchanged NFFT and taper count (deviation 7e-4 .. 29 %)"),
  "C07-r3": ("parma lag setter drops the cache with self.__psd = None, which mangles to another name: a no-op", "parma, computed PSD, a different lag, no other invalidating setter before the read"),
 })
+
+needs.update({
+ "C06-s1": ("get_converted_psd compares the stored sides label with `is 'onesided'` / `is 'centerdc'`", "sides assigned a run-time (non-interned) string, then a conversion away from that representation"),
+ "C06-s2": ("frequencies(): `if sides is None or sides == 'default'` resolves the no-argument call to the default sides", "a conversion to non-default sides, then frequencies() without argument (or plot())"),
+ "C06-s3": ("arma2psd centres the frequency responses before forming the PSD, with elif for the MA part (ARMA: only the denominator is centred)", "arma2psd(A=..., B=..., sides='centerdc') with both A and B"),
+ "C06-t1": ("the complex-data guard rewrapped as assert (cond, msg): a non-empty tuple is always true", "complex data, sides='onesided' somewhere in the sequence (now accepted: a lossy fold), then continued use"),
+ "C06-t2": ("Range.centerdc_gen iterates range(-N//2, N//2): -N//2 is not -(N//2)", "odd NFFT and a comparison with frequencies('centerdc')"),
+ "C06-t3": ("arma2psd centring moved onto the AR response and forgotten for the MA response", "sides='centerdc' together with B coefficients"),
+ "C07-s1": ("pmodcovar takes the Nyquist index from int(sampling/2./df)", "pmodcovar, real data, unlucky even NFFT / sampling pairs (1.0: 186, 198, 210; 100: 22, 44, 88; 1000: 30, 58, 60)"),
+ "C07-s2": ("NFFT setter updates Range.N only while no PSD is stored; the psd setter catches it up", "an object holding a PSD, an NFFT assignment, then df or frequencies() read BEFORE psd"),
+ "C07-s3": ("twosided_2_onesided odd-length branch folds without the reversal", "real data, odd NFFT, a sides history entering onesided from twosided/centerdc without recomputation"),
+ "C07-t1": ("pburg passes its current sides label to arma2psd when it is centerdc; the psd setter relabels the result as default", "pburg, computed PSD, sides='centerdc', an invalidation other than NFFT, a read"),
+ "C07-t2": ("pyule computes the one-sided length as int(sampling/2./df) + 1", "pyule, real data, even non-power-of-two NFFT and a sampling for which the quotient falls just below the integer ((7.0, 100), (0.9, 50), (3.3, 200), (1000, 30))"),
+ "C07-t3": ("a diagnostic inside the data setter reads the lazy self.psd while datatype is still the old one", "a computed PSD, then data of the other kind (real <-> complex), then a read"),
+})
 res = json.load(open('/verif/seeded/RESULTS.json'))
 for sid, (mech, need) in needs.items():
     d = '/verif/seeded/' + sid
